@@ -555,4 +555,31 @@ def getItemNoCopy (steps : List (Step R)) (ds : DS R) (i : Nat) : DS R × Option
     (⟨h, ds.cache⟩, some (h.readD src, m))
 
 end HeapSec
+/-! ## 4. The `.npz` chunk directory (`np_chunks=True`)
+
+A directory maps `sample_<i>.npz` to a stored sample.  `_fill_cache` of a dataset that writes its
+chunks (`use_existing_chunks=False`) does `np.savez_compressed(f"{path}/sample_{idx}.npz", …)` for
+every index — an unconditional overwrite; files with other indices are left as they are. -/
+section Chunks
+variable {α : Type}
+
+abbrev ChunkDir (α : Type) := Nat → Option α
+
+/-- `_fill_cache`, chunk branch, as coded: every own index is (over)written -/
+def writeChunks (dir : ChunkDir α) (ss : List α) : ChunkDir α :=
+  fun i => match ss[i]? with
+    | some s => some s
+    | none => dir i
+
+/-- the variant that keeps a file which already exists (seed C11-r4m1); only for a counterexample -/
+def writeChunksKeep (dir : ChunkDir α) (ss : List α) : ChunkDir α :=
+  fun i => match dir i with
+    | some old => some old
+    | none => ss[i]?
+
+/-- `np.load(f"{path}/sample_{i}.npz")` for an index of the dataset -/
+def readChunk (dir : ChunkDir α) (i : Nat) : Option α := dir i
+
+end Chunks
+
 end SleapVerif.Datasets
